@@ -158,7 +158,7 @@ class Ctx:
             self.events.append({"k": "livelock", "who": "x", "id": 0})
         self.events.append({"k": "quiescent", "who": "x", "id": 0, "live": live,
                             "queued": len(self.snap()["queue"])})
-        return self.events
+        return list(self.events)
 
     def cleanup(self):
         self.inst.__exit__()
